@@ -232,7 +232,7 @@ theorem ends_only_for_a_reason (cfg : Config) (srv : Server) (e : Event) (id : N
         simp only [hfail, if_true]
         rcases hids with h | ⟨hm, hs, he⟩
         · right; right; right; right
-          rcases closeConn_ids (c := cn.id) h with h' | ⟨cn1, ss1, _, _, h3, h4, h5⟩
+          rcases closeConn_ids (srv := arm srv srv1 cn.id) (c := cn.id) h with h' | ⟨cn1, ss1, _, _, h3, h4, h5⟩
           · exact absurd h' hgone
           · exact ⟨c, r, _, cn, srv1, ss1, rfl, rfl, by simpa using hfail, hf, by rw [hci], h3, h4, h5⟩
         · exact absurd (by simpa using hfail) he
